@@ -135,8 +135,7 @@ def step (ns : Option String) (x : Err) (e v : Entry) : Entry :=
 
 theorem merge_eq (e : Entry) (ns : Option String) (oe : Entry) :
     e.merge ns oe = oe.dir.foldl (step ns (Err.at_ oe.d.node "duplicate-node")) (e.importErrors oe) := by
-  unfold Entry.merge step stamp
-  rfl
+  cases ns <;> rfl
 
 /-- The key `k` is present among the children `c` (Go: `e.Dir[k] != nil`). -/
 def taken (c : List Entry) (k : String) : Bool := (c.find? (·.name == k)).isSome
@@ -167,12 +166,12 @@ theorem foldl_step (ns : Option String) (x : Err) (vs : List Entry) (hnd : (vs.m
       unfold step taken Entry.child?
       rw [stamp_name]
       simp only [Entry.dir]
-      cases h : c.find? (·.name == v.name) <;> simp [Entry.addErr, Entry.withD, Entry.withDir, Entry.dir]
+      cases h : c.find? (·.name == v.name) <;> simp [Entry.addErr, Entry.withD, Entry.withDir]
     rw [hstep]
     by_cases htk : taken c v.name = true
     · simp only [htk, ↓reduceIte]
       rw [ih hnd.2]
-      simp [List.filter_cons, htk, List.append_assoc]
+      simp [htk, List.append_assoc]
     · have htk' : taken c v.name = false := by simpa using htk
       simp only [htk', Bool.false_eq_true, ↓reduceIte]
       rw [ih hnd.2]
@@ -186,7 +185,7 @@ theorem foldl_step (ns : Option String) (x : Err) (vs : List Entry) (hnd : (vs.m
       have f2 : (t.filter fun w => !taken (c ++ [stamp ns v]) w.name) = t.filter fun w => !taken c w.name :=
         List.filter_congr fun w hw => by rw [hcongr w hw]
       rw [f1, f2]
-      simp [List.filter_cons, htk', List.append_assoc]
+      simp [htk', List.append_assoc]
 
 /-- `merge` does not depend on the order in which the map `oe.Dir` is walked: another order
 gives the same children (as a set: a permutation of the insertion-ordered list), the same
@@ -203,8 +202,7 @@ theorem merge_perm (e : Entry) (ns : Option String) (od : EData) {c₁ c₂ : Li
   rw [merge_eq, merge_eq]
   simp only [Entry.importErrors, Entry.addErrs, Entry.withD, Entry.d, Entry.dir, Entry.inp, Entry.out]
   rw [foldl_step ns _ c₁ hnd, foldl_step ns _ c₂ hnd₂]
-  simp only [Entry.dir, Entry.d, Entry.inp, Entry.out]
-  refine ⟨?_, ?_, rfl, rfl, rfl⟩
+  refine ⟨?_, ?_, ?_, ?_, ?_⟩ <;> try trivial
   · exact List.Perm.append_left _ ((h.filter _).map _)
   · refine List.Perm.append ?_ ((h.filter _).map _)
     refine List.Perm.append_left _ ?_
@@ -236,7 +234,7 @@ theorem fixChoice_perm (d : EData) {c₁ c₂ : List Entry} (i o : List Entry) (
     (fixChoice (.mk d c₁ i o)).inp = (fixChoice (.mk d c₂ i o)).inp ∧
     (fixChoice (.mk d c₁ i o)).out = (fixChoice (.mk d c₂ i o)).out := by
   simp only [fixChoice, Entry.dir, Entry.d, Entry.inp, Entry.out, fixChoiceL_eq_map, wrapCases_eq_map]
-  refine ⟨?_, rfl, rfl, rfl⟩
+  refine ⟨?_, ?_, ?_, ?_⟩ <;> try trivial
   split
   · exact (h.map _).map _
   · exact h.map _
